@@ -117,7 +117,10 @@ package soymsg
 //@   props C10 C08 C09
 //@   nosafety
 //@   pure
-//@   at call soymsg.toUpperUnderscore#0 assert[a-global-by-its-name;C10] same(arg0, unbox(expr, *ast.GlobalNode).Name)
+//@   ghost gdot int = -2
+//@   at call strings.LastIndex#0 assert[cut-at-the-last-dot-of-the-global's-name;C10] same(arg0, unbox(expr, *ast.GlobalNode).Name) && arg1 == "."
+//@   at call strings.LastIndex#0 after set gdot = res
+//@   at call soymsg.toUpperUnderscore#0 assert[a-global-by-the-part-after-its-last-dot;C10,C11] substr(arg0, unbox(expr, *ast.GlobalNode).Name, gdot + 1) && len(arg0) == len(unbox(expr, *ast.GlobalNode).Name) - gdot - 1
 //@   at call soymsg.toUpperUnderscore#1 assert[a-plain-variable-by-its-name;C10] len(unbox(expr, *ast.DataRefNode).Access) == 0 && same(arg0, unbox(expr, *ast.DataRefNode).Key)
 //@   at call soymsg.toUpperUnderscore#2 assert[a-data-reference-by-its-last-key;C10] typeis(unbox(expr, *ast.DataRefNode).Access[len(unbox(expr, *ast.DataRefNode).Access)-1], *ast.DataRefKeyNode) && same(arg0, unbox(unbox(expr, *ast.DataRefNode).Access[len(unbox(expr, *ast.DataRefNode).Access)-1], *ast.DataRefKeyNode).Key)
 //@ func genBasePlaceholderNameFromHtml
